@@ -961,6 +961,58 @@ func actProposalRoundtrip(e *Env, a J) J {
 		return J{"infra": err.Error()}
 	}
 	prop := pl.(*message.SecurityAssociation).Proposals[0]
+	if gb(a, "scratch") {
+		// the caller assembles its proposals in five scratch transform lists it keeps for the whole run: Reset, BuildTransform the
+		// choices of THIS proposal, hand the lists to the proposal -- and, before the proposal is used, Reset the scratch lists and
+		// assemble the NEXT negotiation's (other) choices in them.  The proposal still holds what it was given.
+		sc, _ := e.objs["scratchlists"].(*[5]message.TransformContainer)
+		if sc == nil {
+			sc = new([5]message.TransformContainer)
+			e.objs["scratchlists"] = sc
+		}
+		lists := [5]*message.TransformContainer{&prop.EncryptionAlgorithm, &prop.PseudorandomFunction, &prop.IntegrityAlgorithm, &prop.DiffieHellmanGroup, &prop.ExtendedSequenceNumbers}
+		build := func(c *message.TransformContainer, t *message.Transform, other bool) {
+			id, at, av := t.TransformID, t.AttributeType, t.AttributeValue
+			if other { // another supported choice of the same type where there is one
+				switch t.TransformType {
+				case 1:
+					av = map[uint16]uint16{128: 256, 192: 128, 256: 192}[av]
+				case 2:
+					id = map[uint16]uint16{1: 5, 2: 1, 5: 2}[id]
+				case 3:
+					id = map[uint16]uint16{1: 12, 2: 1, 12: 2}[id]
+				case 4:
+					id = map[uint16]uint16{2: 14, 14: 2}[id]
+				case 5:
+					id = 1 - id%2
+				}
+			}
+			if t.AttributePresent && t.AttributeFormat == 1 {
+				c.BuildTransform(t.TransformType, id, &at, &av, nil)
+			} else if t.AttributePresent {
+				c.BuildTransform(t.TransformType, id, &at, nil, t.VariableLengthAttributeValue)
+			} else {
+				c.BuildTransform(t.TransformType, id, nil, nil, nil)
+			}
+		}
+		orig := [5]message.TransformContainer{}
+		for q, l := range lists {
+			orig[q] = *l
+			sc[q].Reset()
+			for _, t := range orig[q] {
+				build(&sc[q], t, false)
+			}
+			if len(orig[q]) > 0 {
+				*l = sc[q]
+			}
+		}
+		for q := range lists {
+			sc[q].Reset()
+			for _, t := range orig[q] {
+				build(&sc[q], t, true)
+			}
+		}
+	}
 	if gb(a, "wire") {
 		b, err := pl.Marshal()
 		if err != nil {
